@@ -132,9 +132,12 @@ class Recorder:
                 self._closed = False
 
             def write(self, data):
-                rec.hit(("write", rec.rel(self._p), len(data)))
-                rec.written.append(data if isinstance(data, bytes) else data.encode())
-                return self._f.write(data)
+                op = ("write", rec.rel(self._p), len(data) if isinstance(data, (bytes, bytearray, str)) else -1)
+                rec.pre(op)
+                r = self._f.write(data)     # raises TypeError for a block that is not bytes: nothing reaches the OS then
+                rec.ops.append(op)
+                rec.written.append(bytes(data) if isinstance(data, (bytes, bytearray)) else data.encode())
+                return r
 
             def close(self):
                 if not self._closed:
@@ -301,8 +304,10 @@ def make_publisher(logdir):
 
 
 def get_incident(pub, name, arena):
-    """-> (outcome, [relative paths opened for reading under the arena])"""
+    """-> (outcome, [relative paths opened for reading under the arena]); get_incident.raw = the path strings as
+    they were handed to the kernel"""
     opened = []
+    raw = get_incident.raw = []
     real_open = builtins.open
     real_bz2 = bz2.BZ2File
     real_exists = os.path.exists
@@ -313,6 +318,7 @@ def get_incident(pub, name, arena):
                 p = os.fsdecode(p)
             if isinstance(p, str):
                 opened.append(os.path.relpath(os.path.abspath(p), arena))
+                raw.append(p)
         except Exception:
             pass
 
@@ -387,11 +393,48 @@ def wipe():
         shutil.rmtree(ROOT, ignore_errors=True)
 
 
+class Opaque(object):
+    pass
+
+
 def source_error(kind):
+    """what ends the block stream early: an Exception instance = read() fails (remote exception / disconnect);
+    anything else = read() SUCCEEDS with a block that f.write() cannot take (no schema guards the 'read' call)"""
     if kind == "disconnect":
         from foolscap.ipb import DeadReferenceError
         return DeadReferenceError("connection was lost")
-    return ValueError("source failed")
+    if kind == "source":
+        return ValueError("source failed")
+    return {"str": u"text instead of bytes", "int": 7, "obj": Opaque(), "list": [1, 2], "float": 1.5}[kind]
+
+
+BAD_BLOCK_KINDS = ["str", "int", "obj", "list", "float"]
+
+# entries that already live in every service directory: names that are lexically ONE component after normalisation can
+# still be physically different paths when their leading component is one of these
+FURNITURE = dict(dlnk="incident-dlnk", sub="incident-sub", lnk="incident-lnk", file="incident-file")
+
+
+def furnish(target):
+    """-> model entries of the furniture [(abspath, ('F', content) | ('L', text) | ('D',))]"""
+    j = lambda n: os.path.join(target, n)
+    os.symlink("../sentinel", j(FURNITURE["dlnk"]))
+    os.mkdir(j(FURNITURE["sub"]))
+    write_incident(os.path.join(j(FURNITURE["sub"]), "inner.flog"), "inside-subdirectory")
+    os.symlink("../sentinel/victim", j(FURNITURE["lnk"]))
+    with open(j(FURNITURE["file"]), "wb") as f:
+        f.write(b"FILE")
+    return [(j(FURNITURE["dlnk"]), ("L", "../sentinel")), (j(FURNITURE["sub"]), ("D",)),
+            (j(FURNITURE["lnk"]), ("L", "../sentinel/victim")), (j(FURNITURE["file"]), ("F", b"FILE"))]
+
+
+def furniture_names():
+    out = []
+    for e in list(FURNITURE.values()) + ["nx"]:
+        out += [e, e + "/", e + "/.", e + "//", e + "/./", e + "/../x", e + "/../incident-x", "./" + e + "/../x", e + "/./../x",
+                e + "/../" + e + "/../x", e + "/x", e + "/inner", e + "/victim", e + "/..", e + "/../..", e + "/../../sentinel/x",
+                e + "/../" + e, e + "/../" + e + "/"]
+    return out
 
 
 def write_incident(fn, msg, compress=False):
